@@ -218,6 +218,11 @@ def check_recipe(r):
             for p in paths:
                 if p.kind == "ret":
                     rexpr, rdim = p.value
+                    if getattr(rdim, "tainted", False):
+                        rr0, m0 = ses.check(p.pc)
+                        if rr0 == "sat":
+                            bad = (p, "accepted:malformed-dimension", m0)
+                            break
                     gd = to_vec(rdim)
                     conds = [sem.wf, z3.Or(sem.anyf, vec_eq(gd, sem.dim))]
                     label = "accepted"
@@ -368,7 +373,10 @@ bad = False
 if expect["wf"]:
     if got != "accepted": bad = True; print("well-formed by the statement but", got)
     elif not expect["any"]:
-        deps = dimsys_SI.get_dimensional_dependencies(rdim)
+        try:
+            deps = dimsys_SI.get_dimensional_dependencies(rdim)
+        except Exception as e:
+            print("REPRODUCED: the inferred dimension", rdim, "is not a dimension the unit system can process:", type(e).__name__, e); sys.exit(1)
         gd = [sp.nsimplify(next((v for k, v in deps.items() if str(k.name) == str(b.name)), 0)) for b in BASE]
         if gd != [sp.Rational(x) for x in expect["dim"]]: bad = True; print("inferred dimension", gd, "expected", expect["dim"])
 else:
